@@ -27,7 +27,7 @@ EXPLANATION = (
     "yield; one read of the processed offset feeds both the commit request and the value later recorded; "
     "must-hold `_commit_req is None` at the send; resume position in the same arm as the committed value."
 )
-SHARED = [('C09', ['R4'], 'a broker error on a commit surfaces as a failure (fail_on_error)'), ('C08', ['R3'], 'coordinator errors are handled, not swallowed'), ('C02', ['R6'], 'messages at or below the committed position are not redelivered after a restart'), ('C05', ['R5'], 'offsets of messages inside compressed wrappers are the log offsets: the committed offset is not ahead of what was processed')]
+SHARED = [('C14', ['R4'], 'the consumer leaves its position only for an out-of-range answer: no other error makes it jump, and later commit, past messages it never processed'), ('C09', ['R4'], 'a broker error on a commit surfaces as a failure (fail_on_error)'), ('C08', ['R3'], 'coordinator errors are handled, not swallowed'), ('C02', ['R6'], 'messages at or below the committed position are not redelivered after a restart'), ('C05', ['R5'], 'offsets of messages inside compressed wrappers are the log offsets: the committed offset is not ahead of what was processed')]
 ASSUMPTIONS = [
     "Twisted: addCallback handlers run only on success; a failure absorbed by an errback resumes the generator normally",
     "the broker acknowledges a commit iff the response error code is 0 (client.send_offset_commit_request raises otherwise)",
@@ -250,7 +250,7 @@ def run(ctx):
 
     # ---- R5 committed offset takes acknowledged / reported values only
     r = ctx.rule("R5", "writers of the committed offset: on-success handler of the commit (snapshot) and the "
-                       "offset-fetch reply arm", 3, "A+C")
+                       "offset-fetch reply arm", 4, "A+C")
     wr = [(f, n) for f, k, n in prog.attr_accesses(ci, "_last_committed_offset", False) if k in ("write", "aug", "del")
           and f.name != "__init__"]
     wfuncs = sorted({f.qname for f, n in wr})
@@ -273,6 +273,24 @@ def run(ctx):
     r.check(ok and not also_eb, "%s#registration" % uco.qname,
             "the recorder of the committed offset is not an on-success handler of the commit request carrying the "
             "snapshot %r" % V, where(scr, scr.node), "a failed or unacknowledged commit is recorded as committed")
+    # the recorder stores the acknowledged value on every path, whatever was recorded before (a consumer that is rewound -
+    # stopped and started at an earlier offset - commits a smaller offset than the one recorded)
+    cu = ctx.cfg(uco)
+    offp = uco.params[2] if len(uco.params) > 2 else None
+    wn = [n for n in cu.nodes if node_assign_value(n, "_last_committed_offset") is not None]
+    okw = bool(wn) and offp is not None
+    whyw = "no store of the acknowledged offset"
+    if okw:
+        for n in wn:
+            og_ = value_origins(cu, n.id, node_assign_value(n, "_last_committed_offset"), params=uco.params) or []
+            if not og_ or not all(isinstance(e_, ast.Name) and e_.id == offp and d_ == cu.entry.id for d_, e_ in og_):
+                okw, whyw = False, "the value stored is `%s`, not the acknowledged offset `%s`" % (norm(node_assign_value(n, "_last_committed_offset")), offp)
+        if okw and cu.normal_exits_from(cu.entry.id, avoid=[n.id for n in wn]):
+            deps_ = sorted({norm(t.stmt.test) for n in wn for t, lab in cu.control_deps_transitive(n.id) if t.kind == "test"})
+            okw, whyw = False, "the acknowledged offset is recorded only under %s" % deps_
+    r.check(okw, "%s#records-acknowledged-value" % uco.qname, whyw, where(uco, wn[0].stmt if wn else uco.node),
+            "rewind and commit a smaller offset: the recorded value stays ahead of what the broker holds; later commits are "
+            "skipped as up to date and a successor resumes from the wrong place")
     hor = ctx.func(CONS + "._handle_offset_response")
     ch = ctx.cfg(hor)
     fh = ctx.facts(hor)
